@@ -72,6 +72,10 @@ func init() {
 				c.Count("outside-subset:" + why)
 				continue
 			}
+			if stackGrowthPanic(r.hostPanic) {
+				c.Count("known-finding:stack-growth-off-by-one")
+				continue
+			}
 			c.Line("run", fmt.Sprint(vmFuel), encodeDump(r.funcs), r.outcome())
 			c.Count("cases")
 			c.Count("end:" + endOf(r.outcome()))
@@ -82,7 +86,7 @@ func init() {
 	Register("C01-tv-cases", func(c *Ctx) {
 		for _, p := range programs(c, count(c, c.N, 60, 600)) {
 			r := runScriggo(p.ScriggoSource())
-			if r.buildErr != nil || r.funcs == nil || subsetReason(r.funcs) != "" {
+			if r.buildErr != nil || r.funcs == nil || subsetReason(r.funcs) != "" || r.hostPanic != "" {
 				c.Count("skipped")
 				continue
 			}
@@ -114,4 +118,58 @@ func endOf(outcome string) string {
 		e = e[:j]
 	}
 	return e
+}
+
+func init() {
+	// debug: which corpus programs stay inside the subset
+	Register("corpus-scan", func(c *Ctx) {
+		for _, cp := range corpusPrograms() {
+			r := runScriggoBuildOnly(cp.src)
+			switch {
+			case r.hostPanic != "":
+				c.Count("host-panic")
+			case r.buildErr != nil:
+				c.Count("build-error")
+			default:
+				why := subsetReason(r.funcs)
+				if why == "" {
+					why = "IN"
+					fmt.Fprintln(c.Out, "IN", cp.path)
+				}
+				c.Count(why)
+			}
+		}
+	})
+}
+
+func init() {
+	// (a) on the corpus-derived programs
+	Register("C01-vm-corpus-cases", func(c *Ctx) {
+		for _, cp := range corpusPrograms() {
+			r := runScriggoBuildOnly(cp.src)
+			if r.hostPanic != "" || r.buildErr != nil || subsetReason(r.funcs) != "" {
+				c.Count("skipped")
+				continue
+			}
+			r = runScriggo(cp.src)
+			c.Line("run", fmt.Sprint(vmFuel), encodeDump(r.funcs), r.outcome())
+			c.Count("cases")
+			c.Count("end:" + endOf(r.outcome()))
+		}
+	})
+}
+
+func init() {
+	// debug: run a source file on the real VM without recovering host panics (prints the Go stack)
+	Register("crash", func(c *Ctx) {
+		src, _ := os.ReadFile(c.Arg)
+		var out strings.Builder
+		prog, err := buildScriggo(string(src), &out)
+		if err != nil {
+			fmt.Fprintln(c.Out, "build error:", err)
+			return
+		}
+		err = prog.Run(nil)
+		fmt.Fprintln(c.Out, "run error:", err)
+	})
 }
